@@ -383,7 +383,7 @@ def random_geometry(rng, kind, cell=None, poi_mode=None, den=None, reverse=None)
 # ---------------------------------------------------------------------------------------------
 
 def parse_pt(tok):
-    if tok == "none":
+    if tok in ("none", "~"):
         return None
     x, y, _ = tok[1:-1].split(",")
     return (Fr(x), Fr(y))
